@@ -90,34 +90,93 @@ def generate(tp: Tape, tier: str):
         inputs.append(gen_big_input(tp, dtype=i0["dtype"], related=i0))
     prog = G.generate_program(tp, max_steps=3, min_steps=1, inputs=inputs, only_ops=MEM_OPS, max_outputs=1,
                               size_cap=3_000_000, result_cap=6_000_000, allow_zero=False)
-    case = dict(kind="prog", prog=prog, profile="memory",
+    raw = tp.coin(1, 8)
+    if not raw:
+        # avoidance transforms for the two known findings (kept raw in 1/8 of the runs)
+        for st in prog["steps"]:
+            if st["op"] == "getitem":
+                for e in st["p"]["idx"]:
+                    if e[0] == "s" and e[3] not in (None, 1):
+                        e[3] = None
+                st["p"]["idx"] = [e if e[0] != "a" else ["s", None, None, None] for e in st["p"]["idx"]]
+        if any(st["op"] == "argred" for st in prog["steps"]):
+            prog = G.remove_steps(prog, []) or prog
+        if not G.valid_program(prog):
+            raw = True
+    # chunk parameters drawn by the general generator would make thousands of tiny tasks: keep chunks MB-sized
+    sh = G.shadow_of(prog)
+    for st in prog["steps"]:
+        if st["op"] == "rechunk":
+            shp = sh.values[st["args"][0]].shape
+            st["p"]["chunks"] = [max(1, -(-s // tp.choice([1, 1, 2, 3]))) for s in shp]
+            st["p"].pop("min_mem", None)
+    avoid_fused_argred = (not raw) and any(st["op"] == "argred" for st in prog["steps"])
+    case = dict(kind="prog", prog=prog, profile="memory", raw=raw,
                 exec=dict(kind=tp.choice(["single", "threads", "processes"]), max_workers=2),
                 sim=dict(mode="atomic", dur="zero"),
                 opt=tp.choice([dict(kind="default"), dict(kind="default"), dict(kind="off"), dict(kind="multi", max_total_num_input_blocks=20)]),
                 allowed_mem=2_000_000_000, reserved_mem=RESERVED,
                 compressor=tp.choice([None, "auto"]), py_seed=tp.randint(0, 10**6), sched_seed=tp.randint(0, 2**62))
+    if avoid_fused_argred:
+        case["opt"] = dict(kind="off")
     return case
 
 
 def execute(case, sched=None):
     measures = []  # (op name, input, peak bytes)
 
+    stores = []
+
     def wrapper(job, thunk):
         gc.collect()
         tracemalloc.reset_peak()
         base = tracemalloc.get_traced_memory()[0]
+        kept0 = sum(s_.sh.bytes_retained for s_ in stores)
         try:
             return thunk()
         finally:
             cur, peak = tracemalloc.get_traced_memory()
-            measures.append((job.label[0], job.label[1], peak - base))
+            # bytes the in-memory SimStore retained stand in for the storage medium: not task memory
+            kept = sum(s_.sh.bytes_retained for s_ in stores) - kept0
+            measures.append((job.label[0], job.label[1], peak - base - kept))
+
+    def pre(rr_):
+        stores[:] = list(rr_.sim.stores)
+        for s_ in stores:
+            s_.sh.copy_on_read = True  # reads allocate, as reading from a real store does
 
     violations = []
+    # guard: a plan with very many tasks would spend its time in gc.collect(), not in measuring
+    try:
+        with PR.Session(case, sched) as rr_:
+            if PR.build_program(rr_):
+                import cubed
+
+                og_, of_ = PR.make_optimize_function(case.get("opt"))
+                if cubed.plan(*rr_.arrays, optimize_graph=og_, optimize_function=of_).num_tasks > 250:
+                    dg = "too-many-tasks"
+                    return dict(violations=[], violation=None, digest=dg, sig=sig_of(case["prog"], dg), nontrivial=False,
+                                counters={"skipped_too_many_tasks": 1}, vtime=0.0, tape=[], outcome=dict(phase="skipped"))
+    except Exception:  # noqa: BLE001
+        pass
     started_here = not tracemalloc.is_tracing()
     if started_here:
         tracemalloc.start()
     try:
-        rr = PR.run_program(case, sched, body_wrapper=wrapper)
+        # measured twice; per task the smaller peak counts, so that one-off allocations (lazy imports,
+        # caches filled on first use) cannot be mistaken for data memory and the verdict replays
+        rr = PR.run_program(case, sched, body_wrapper=wrapper, pre_compute=pre)
+        first = list(measures)
+        measures.clear()
+        if rr.results is not None:
+            rr = PR.run_program(case, sched, body_wrapper=wrapper, pre_compute=pre)
+            best = {}
+            for name, inp, peak in first:
+                best[(name, inp)] = peak
+            merged = []
+            for name, inp, peak in measures:
+                merged.append((name, inp, min(peak, best.get((name, inp), peak))))
+            measures[:] = merged
     finally:
         if started_here:
             tracemalloc.stop()
@@ -134,13 +193,14 @@ def execute(case, sched=None):
             nmeas += 1
             ratio = peak / po.projected_mem if po.projected_mem else 0
             tight = max(tight, ratio)
-            if peak > po.projected_mem:
+            # 1 % / 32 kB guard band so that a borderline measurement cannot flip between a run and its replay
+            if peak > po.projected_mem + max(po.projected_mem // 100, 32_000):
                 w = worst.get(name)
                 if w is None or peak > w[1]:
                     worst[name] = (inp, peak, po.projected_mem)
         for name, (inp, peak, pm) in worst.items():
             d = rr.cb.dag.nodes[name]
-            violations.append(dict(cls="task_exceeds_projected_mem",
+            violations.append(dict(cls="task_exceeds_projected_mem", func=str(d.get("func_name")), ratio=round(peak / pm, 3),
                                    msg=f"task {inp} of {name} ({d.get('op_name')}/{d.get('func_name')}) allocated {peak} bytes at peak, projected_mem is {pm} (reserved {RESERVED}); program ops {PR.ops_used(case['prog'])}",
                                    ops=PR.ops_used(case["prog"])))
     counters["tasks_measured"] = nmeas
